@@ -1,32 +1,32 @@
 SPECIFICATION Spec
 CONSTANTS
-  MaxStmts = 2
+  MaxStmts = 3
   MaxDepth = 3
   MaxUnits = 1
-  MaxVar = 1
-  UnitKinds <- SubOnly
+  MaxVar = 30
+  UnitKinds <- ModOnly
   ConKinds <- Empty
-  SpecKinds <- Empty
-  SimpleV <- StrSplitS
-  DeclV <- StrSplitDecl
+  SpecKinds <- AllSpec
+  SimpleV <- Set1
+  DeclV <- Set1
   UseV <- Set1
   FormatV <- Set1
-  CompV <- Set1
-  TbindV <- Set1
+  CompV <- CompAll
+  TbindV <- TbindAll
   NameChoices <- Set1
-  EndForms <- Set02
+  EndForms <- Set1
   LabelStmts = FALSE
   Contains = FALSE
-  PKinds <- KCmt
+  PKinds <- KBrk
   MaxEdits = 1
   InsSet <- InsSmall
   MinEdits = 0
   Randomised = FALSE
-  DumpMod = 3
+  DumpMod = 11
   NRepl = 17
-  RichOnly = FALSE
+  RichOnly = TRUE
   NeedStruct = FALSE
-  MaxRich <- Unlimited
+  MaxRich = 1
   NCmtCls = 8
   NCppForms = 27
   NGarb = 7
